@@ -26,6 +26,7 @@ def run(prog: Program, rep: Report, tier: str):
     rule_coupling(prog, rep)
     rule_block(prog, rep)
     rule_constructor(prog, rep)
+    rule_positive_diagonal(prog, rep)
     if tier == "thorough":
         from ..audit import audit_generic
         audit_generic(prog, rep, "C09")
@@ -347,3 +348,29 @@ def rule_constructor(prog, rep):
         want = eval_ref_method(prog, c, ref, [P])
         compare(rep, "C09.transformer", method_site(prog, c, "_flat_params_to_transformer"),
                 f"{c.name}._flat_params_to_transformer", got, want, "per-coordinate transformer")
+
+
+def rule_positive_diagonal(prog, rep):
+    """The strictly positive diagonal of the block autoregressive Jacobian needs, besides the softplus on the
+    diagonal blocks, that weight normalisation rescales rows by a POSITIVE factor and that the default
+    activation is increasing."""
+    from .c11 import reparam_image_lower_bound, REPARAM
+    from ..terms import is_const
+    rep.rule("C09.positive", "BNAF positive diagonal for all weights: WeightNormalization multiplies each row by a scale "
+                             "that is softplus-reparameterised (> 0 for every raw value) and divides by the row norm "
+                             "over the last axis; the diagonal blocks are softplus-positive (C09.mask@unwrap)", minimum=2)
+    c = prog.cls("flowjax.wrappers.WeightNormalization")
+    f = Interp(prog).eval_init(c, [("sym", "WEIGHT")])
+    sc = f.get("scale")
+    site = method_site(prog, c, "__init__")
+    ok = sc is not None and sc[0] == "call" and sc[1] == REPARAM
+    if ok:
+        lb = reparam_image_lower_bound(prog, dict(sc[3]).get("bijection"))
+        ok = lb is not None and lb[1] and is_const(lb[0]) and lb[0][1] >= 0
+    rep.check(ok, "C09.positive", site, "WeightNormalization.scale>0",
+              "scale = softplus(raw) > 0", f"WeightNormalization.scale is stored as {show(sc, 160) if sc else None}: a row "
+                                           f"scale that can become negative flips the sign of whole rows, so the "
+                                           f"block-diagonal of the Jacobian is no longer positive once the weights move")
+    got = Interp(prog).eval_method(c, "unwrap", [])
+    want = eval_ref_method(prog, c, "def unwrap(self):\n    return self.scale * self.weight / jnp.linalg.norm(self.weight, axis=-1, keepdims=True)\n", [])
+    compare(rep, "C09.positive", method_site(prog, c, "unwrap"), "WeightNormalization.unwrap", got, want, "unwrap")
